@@ -555,6 +555,62 @@ def rule_async(text):
     return rewrite(text, finder)
 
 
+def rule_lazy_futures(text, async_names):
+    """Soundness guard of rule R4.  R4 erases `.await`: a call of an async fn is read as running to completion where it is
+    written.  That is only what the code does if the future is consumed on the spot: `f(..).await`, `f(..).instrument(..)`
+    (awaited by what encloses it), `f(..).boxed()` (this function's own result, awaited by ITS caller), or directly the
+    future argument of `timeout(d, f(..))` (rule T).  A future that is bound to a variable, stored, or passed to another
+    function runs later (or never, or under somebody else's deadline): outside the rules."""
+    c = Code(text)
+    for k in range(len(c)):
+        if c.kind(k) != "id" or c.t(k) not in async_names or c.t(k - 1) == "fn":
+            continue
+        j = k + 1
+        if c.t(j) == "::" and c.t(j + 1) == "<":
+            depth, j = 0, j + 1
+            while j < len(c):
+                if c.t(j) == "<": depth += 1
+                elif c.t(j) == ">":
+                    depth -= 1
+                    if depth == 0: break
+                j += 1
+            j += 1
+        if c.t(j) != "(":
+            continue
+        cl = c.close(j)
+        n = cl + 1
+        while c.t(n) == "." and c.t(n + 1) == "instrument" and c.t(n + 2) == "(":
+            n = c.close(n + 2) + 1
+        if c.t(n) == "." and c.t(n + 1) in ("await", "boxed"):
+            continue
+        # start of the whole call expression (receiver / path included)
+        s0 = k
+        while c.t(s0 - 1) in (".", "::") or (c.t(s0 - 1) == ">" and False):
+            s0 -= 2
+            if c.t(s0) == ")":          # receiver is itself a call: f().g()
+                s0 = c.close(s0)
+                while c.kind(s0 - 1) == "id" or c.t(s0 - 1) in (".", "::"):
+                    s0 -= 1
+        while c.t(s0 - 1) in ("&", "*", "mut"):
+            s0 -= 1
+        if c.t(s0 - 1) == "=" and c.t(s0 - 2) == "__scope_r":
+            continue   # generated by rule R6-scope from `CURRENT_ACTOR.scope(id, FUT).await`
+        eo = c.enclosing_open(s0)
+        if eo >= 0 and c.t(eo) == "(" and c.t(eo - 1) == "timeout":
+            args = split_args(c, eo)
+            if len(args) == 2 and args[1][0] == s0:
+                continue
+        if eo >= 0 and c.t(eo) == "{" and c.t(n) == "}" and n == c.close(eo):
+            # the value of a block that is itself consumed on the spot: `{ f(..) }.await` / `async { f(..).await }`-like wrappers
+            m = n + 1
+            while c.t(m) == "." and c.t(m + 1) == "instrument" and c.t(m + 2) == "(":
+                m = c.close(m + 2) + 1
+            if c.t(m) == "." and c.t(m + 1) in ("await", "boxed"):
+                continue
+        raise Unsupported("future of `%s(..)` is not consumed where it is created (bound, stored or passed on): outside rule R4" % c.t(k))
+    return text
+
+
 # ---------------------------------------------------------------- R7 effect parameter
 def rule_world_calls(text, effectful):
     """append `w` to the argument list of every call whose callee name is in `effectful`."""
